@@ -33,10 +33,24 @@ TINY = {"depth_quick": 5, "depth_thorough": 4, "graphs_quick": 6,
 TINY_THOROUGH = dict(TINY, enum=dict(TINY["enum"], q=True))
 
 
+def _e2e(ck):
+    # real `maestro run --dry -fg` through the command line over {--hashws} x {--usetmp} x throttle x
+    # attempts, against a real run of the same study under the scripted scheduler: no submit /
+    # check_jobs / step execution, termination within instances+1 polls, every row DRYRUN, exit 0,
+    # same script files as the real run (harness/props/c17_e2e.py)
+    from harness.props import c17_e2e
+    c17_e2e.run_e2e(ck)
+
+
 def run(ck):
     BIAS.n = 0
-    return X.run_exec(ck, 17, BIAS, tiny=TINY if ck.tier == "quick" else TINY_THOROUGH)
+    return X.run_exec(ck, 17, BIAS, tiny=TINY if ck.tier == "quick" else TINY_THOROUGH, extra=_e2e)
 
 
 def replay(ck, path):
+    from harness.props import c17_e2e
+    import json
+    d = json.load(open(path))
+    if c17_e2e.is_e2e_case(d.get("case", d)):
+        return c17_e2e.replay_e2e(ck, d)
     return X.replay_exec(ck, 17, path)
